@@ -496,13 +496,13 @@ SUBCHECKS = [
                   "non-trivial = within 1 of +-2^(8k-1) or +-2^(8k)"),
     SubCheck("ints_power_boundaries", o_int, cases=cases_int_boundaries, exhaustive=True, nontrivial=nt_int,
              rule="+-(2^b + d) for every b in 1..127, d in -2..2 (covers every byte-length boundary to 2^127)"),
-    SubCheck("ints_generated", o_int, strategy=s_int, budget=(6000, 1000000), nontrivial=nt_int,
+    SubCheck("ints_generated", o_int, strategy=s_int, budget=(6000, 600000), nontrivial=nt_int,
              rule="uniform magnitudes below 2^71, per byte length 1..9, and within 300 of 2^(8k-1) / 2^(8k); both signs"),
     SubCheck("numbytes_exhaustive", o_numbytes, cases=cases_numbytes_small, exhaustive=True, nontrivial=nt_numbytes,
              rule="every byte string of length <= 2 as a candidate number: strict decode accepts iff Core's fRequireMinimal test "
                   "passes, lenient value == CScriptNum value, minimal strings are exactly the encoder's output; non-trivial = "
                   "top byte 0x00/0x80"),
-    SubCheck("numbytes_generated", o_numbytes, strategy=s_numbytes, budget=(6000, 600000), nontrivial=nt_numbytes,
+    SubCheck("numbytes_generated", o_numbytes, strategy=s_numbytes, budget=(6000, 400000), nontrivial=nt_numbytes,
              rule="byte strings of length 0..9 with the last two bytes drawn from {00,7f,80,ff,...}; same oracle"),
     SubCheck("pushes_lengths", o_push, cases=cases_push_lengths, exhaustive=True, nontrivial=nt_push,
              rule="data of every length 0..600 (3 contents) and 65534..65537, 70000; every single byte value (also at pc=3): "
@@ -523,7 +523,7 @@ SUBCHECKS = [
                   "non-trivial = cut in or right after the length field"),
     SubCheck("truncated_generated", o_truncated, strategy=s_truncated, budget=(4000, 300000), nontrivial=nt_truncated,
              rule="generated (push opcode, declared size up to 2^32-1, length-field bytes present, data bytes present < declared)"),
-    SubCheck("text_roundtrip", o_text, strategy=s_text, budget=(5000, 300000), nontrivial=nt_text,
+    SubCheck("text_roundtrip", o_text, strategy=s_text, budget=(5000, 120000), nontrivial=nt_text,
              rule="scripts of 0..12 instructions drawn from the 110 single-byte opcodes of script.h and minimal pushes (lengths "
                   "0..80, 255, 256, 520, 65535, 65536, OP_n specials): compile(disassemble(s)) == s on BTC/LTC/BCH/XTN; "
                   "non-trivial = contains a PUSHDATA or OP_n-form push"),
